@@ -79,7 +79,19 @@ class _LoadAndSave:
         this directly so that they exclude, and order their locks like, all
         other writers.
         """
-        self._collection._thread_lock.__enter__()
+        # The lock is looked up through the collection (for file-based
+        # backends it is keyed by the filename), so it may have been replaced
+        # while this thread was waiting for it: another thread can point the
+        # collection at a different file in the meantime. Only a lock that is
+        # still the collection's lock once it is held may be kept, otherwise
+        # the release would go to a different lock and this one would stay
+        # held forever.
+        while True:
+            lock = self._collection._thread_lock
+            lock.__enter__()
+            if lock is self._collection._thread_lock:
+                return
+            lock.__exit__(None, None, None)
 
     def _release_locks(self):
         self._collection._thread_lock.__exit__(None, None, None)
